@@ -66,6 +66,9 @@ CallOK(arch, ld, c) ==
                                     IF r.slot # -1 /\ Loaded(ld, EpochOf(r.slot)) THEN c.status = "ok" /\ c.txsame ELSE c.status # "ok"
       [] c.op = "getSlot" -> EdgeOK(arch, ld, c, TRUE)
       [] c.op = "getFirstAvailableBlock" -> EdgeOK(arch, ld, c, FALSE)
+      \* getGenesisHash: epoch 0 carries the genesis configuration; answered (with the cluster's genesis hash: c.txsame) exactly
+      \* when epoch 0 is loaded
+      [] c.op = "getGenesisHash" -> IF 0 \in LoadedEpochs(arch, ld) THEN c.status = "ok" /\ c.txsame ELSE c.status # "ok"
       [] c.op = "getNode" -> IF c.sig >= 0 THEN c.status = "ok" /\ c.txsame ELSE c.status # "ok"
       [] OTHER -> FALSE
 =============================================================================
